@@ -22,6 +22,1438 @@ Notation frt := (frt Sg U W).
 Notation sto := (sto Sg U W).
 Notation log := (log Sg U W).
 
-(* PROOFS GO HERE *)
+Hypothesis commit_nodup : forall s ps us, NoDup ps -> NoDup (snd (commit s ps us)).
+
+Notation procs := (procs Sg U W).
+Notation wld := (wld Sg U W).
+Notation front := (front U).
+Notation fe := (fe U).
+Notation flook := (flook U).
+Notation fset := (fset U).
+Notation event := (event Sg).
+Notation pl := (pl Sg U W).
+Notation pf := (pf Sg U W).
+Notation pw := (pw Sg U W).
+Notation pfull := (pfull Sg U W).
+Notation pquiet := (pquiet Sg U W).
+Notation plog := (plog Sg U W).
+Notation pok := (pok Sg U W).
+Notation keep_live := (keep_live U).
+Notation drop_events := (drop_events Sg U).
+Notation advance_quiet := (advance_quiet U).
+Notation collect := (collect Sg U).
+Notation next_event_fixed := (next_event_fixed U).
+Notation step now endt force sg := (poll_one Sg U W poll cond next vfixed now endt force sg).
+
+(* ------------------------------------------------------------------ *)
+(* flook / fset *)
+
+Lemma mem_In p l : mem p l = true <-> In p l.
+Proof.
+  unfold mem. rewrite existsb_exists. split.
+  - intros [x [Hin Heq]]. apply N.eqb_eq in Heq. subst. exact Hin.
+  - intros Hin. exists p. split; [exact Hin | apply N.eqb_refl].
+Qed.
+
+Lemma mem_false p l : mem p l = false <-> ~ In p l.
+Proof.
+  rewrite <- mem_In. destruct (mem p l); split; intros; try congruence; try tauto.
+Qed.
+
+Lemma flook_In (f : front) p e : flook f p = Some e -> In (p, e) f.
+Proof.
+  induction f as [|[q e0] r IH]; cbn [Sched.flook]; intros H; [discriminate|].
+  destruct (N.eqb_spec q p) as [Heq|Hne].
+  - inversion H; subst. left; reflexivity.
+  - right. auto.
+Qed.
+
+Lemma flook_None (f : front) p : flook f p = None <-> ~ In p (fkeys f).
+Proof.
+  induction f as [|[q e0] r IH]; cbn [Sched.flook fkeys map fst In].
+  - tauto.
+  - destruct (N.eqb_spec q p) as [Heq|Hne].
+    + split; [discriminate | intros H; exfalso; apply H; left; exact Heq].
+    + unfold fkeys in IH. rewrite IH. tauto.
+Qed.
+
+Lemma In_fkeys (f : front) p e : In (p, e) f -> In p (fkeys f).
+Proof. intros H. unfold fkeys. apply in_map_iff. exists (p, e). auto. Qed.
+
+Lemma In_flook (f : front) p e : NoDup (fkeys f) -> In (p, e) f -> flook f p = Some e.
+Proof.
+  induction f as [|[q e0] r IH]; cbn [Sched.flook fkeys map fst In]; intros Hnd Hin; [contradiction|].
+  inversion Hnd as [|x l Hnotin Hnd']; subst.
+  destruct Hin as [Heq|Hin].
+  - inversion Heq; subst. rewrite N.eqb_refl. reflexivity.
+  - destruct (N.eqb_spec q p) as [Heq|Hne].
+    + subst. exfalso. apply Hnotin. eapply In_fkeys; eauto.
+    + apply IH; auto.
+Qed.
+
+Lemma flook_some_key (f : front) p : In p (fkeys f) -> exists e, flook f p = Some e.
+Proof.
+  intros H. destruct (flook f p) as [e|] eqn:E; [eauto|].
+  apply flook_None in E. contradiction.
+Qed.
+
+Lemma flook_fset_eq (f : front) p e : flook (fset f p e) p = Some e.
+Proof.
+  induction f as [|[q e0] r IH]; cbn [Sched.fset Sched.flook].
+  - rewrite N.eqb_refl. reflexivity.
+  - destruct (N.eqb_spec q p) as [Heq|Hne]; cbn [Sched.flook].
+    + subst. rewrite N.eqb_refl. reflexivity.
+    + destruct (N.eqb_spec q p); [contradiction|]. exact IH.
+Qed.
+
+Lemma flook_fset_neq (f : front) p q e : q <> p -> flook (fset f p e) q = flook f q.
+Proof.
+  intros Hne. induction f as [|[k e0] r IH]; cbn [Sched.fset Sched.flook].
+  - destruct (N.eqb_spec p q); [congruence|reflexivity].
+  - destruct (N.eqb_spec k p) as [Heq|Hkp]; cbn [Sched.flook].
+    + subst. destruct (N.eqb_spec p q); [congruence|reflexivity].
+    + destruct (N.eqb_spec k q); [reflexivity|exact IH].
+Qed.
+
+Lemma In_fset (f : front) p e q x : In (q, x) (fset f p e) -> (q = p /\ x = e) \/ In (q, x) f.
+Proof.
+  induction f as [|[k e0] r IH]; cbn [Sched.fset In].
+  - intros [H|[]]. inversion H; subst. left; auto.
+  - destruct (N.eqb_spec k p) as [Heq|Hkp]; cbn [In].
+    + intros [H|H]; [inversion H; subst; left; auto | right; right; exact H].
+    + intros [H|H]; [right; left; exact H|]. destruct (IH H) as [H1|H1]; [left; exact H1|right; right; exact H1].
+Qed.
+
+Lemma fkeys_fset (f : front) p e :
+  fkeys (fset f p e) = if mem p (fkeys f) then fkeys f else fkeys f ++ [p].
+Proof.
+  induction f as [|[k e0] r IH]; cbn [Sched.fset fkeys map fst mem existsb app].
+  - reflexivity.
+  - unfold fkeys in *. destruct (N.eqb_spec k p) as [Heq|Hkp]; cbn [map fst].
+    + subst. rewrite N.eqb_refl. reflexivity.
+    + destruct (N.eqb_spec p k) as [Heq|_]; [congruence|]. cbn [orb].
+      rewrite IH. unfold mem. destruct (existsb (N.eqb p) (map fst r)); reflexivity.
+Qed.
+
+Lemma In_fkeys_fset (f : front) p e q : In q (fkeys (fset f p e)) <-> q = p \/ In q (fkeys f).
+Proof.
+  rewrite fkeys_fset. destruct (mem p (fkeys f)) eqn:E.
+  - apply mem_In in E. split; [auto|]. intros [H|H]; [subst; exact E|exact H].
+  - rewrite in_app_iff. cbn [In]. split; intros H; intuition.
+Qed.
+
+Lemma nodup_fset (f : front) p e : NoDup (fkeys f) -> NoDup (fkeys (fset f p e)).
+Proof.
+  intros Hnd. rewrite fkeys_fset. destruct (mem p (fkeys f)) eqn:E; [exact Hnd|].
+  apply mem_false in E.
+  apply NoDup_rev in Hnd. rewrite <- (rev_involutive (fkeys f ++ [p])).
+  apply NoDup_rev. rewrite rev_app_distr. cbn [rev app]. constructor; [|exact Hnd].
+  rewrite <- in_rev. exact E.
+Qed.
+
+(* ------------------------------------------------------------------ *)
+(* counting *)
+
+Lemma len_filter_app {A} (g : A -> bool) l1 l2 :
+  length (filter g (l1 ++ l2)) = (length (filter g l1) + length (filter g l2))%nat.
+Proof. rewrite filter_app, app_length. reflexivity. Qed.
+
+Lemma len_filter_rev {A} (g : A -> bool) l : length (filter g (rev l)) = length (filter g l).
+Proof.
+  induction l as [|x l IH]; [reflexivity|].
+  cbn [rev]. rewrite len_filter_app, IH. cbn [filter]. destruct (g x); cbn [length]; lia.
+Qed.
+
+Definition pend1 (e : fe) (fin : Z) : nat :=
+  match fu e with Some _ => if ft e =? fin then 1%nat else 0%nat | None => 0%nat end.
+
+Lemma pend_flook p fin (f : front) :
+  pend p fin f = match flook f p with Some e => pend1 e fin | None => 0%nat end.
+Proof. reflexivity. Qed.
+
+Lemma pend_fset_eq p fin (f : front) e : pend p fin (fset f p e) = pend1 e fin.
+Proof. rewrite pend_flook, flook_fset_eq. reflexivity. Qed.
+
+Lemma pend_fset_neq p q fin (f : front) e : q <> p -> pend q fin (fset f p e) = pend q fin f.
+Proof. intros H. rewrite !pend_flook, flook_fset_neq by exact H. reflexivity. Qed.
+
+(* ------------------------------------------------------------------ *)
+(* keep_live / drop_events *)
+
+Lemma In_keep_live ps (f : front) p e : In (p, e) (keep_live ps f) <-> In (p, e) f /\ In p ps.
+Proof. unfold Sched.keep_live. rewrite filter_In. cbn [fst]. rewrite mem_In. tauto. Qed.
+
+Lemma In_fkeys_inv (f : front) p : In p (fkeys f) -> exists e, In (p, e) f.
+Proof.
+  unfold fkeys. rewrite in_map_iff. intros [[q e] [H1 H2]]. cbn [fst] in H1. subst. eauto.
+Qed.
+
+Lemma In_fkeys_keep_live ps (f : front) p : In p (fkeys (keep_live ps f)) -> In p (fkeys f) /\ In p ps.
+Proof.
+  intros H. apply In_fkeys_inv in H. destruct H as [e H]. apply In_keep_live in H.
+  destruct H as [H1 H2]. split; [eapply In_fkeys; eauto|exact H2].
+Qed.
+
+Lemma nodup_keep_live ps (f : front) : NoDup (fkeys f) -> NoDup (fkeys (keep_live ps f)).
+Proof.
+  induction f as [|[q e] r IH]; intros Hnd; [constructor|].
+  cbn [fkeys map fst] in Hnd. inversion Hnd as [|x l Hnotin Hnd']; subst.
+  cbn [Sched.keep_live filter fst]. destruct (mem q ps).
+  - cbn [fkeys map fst]. constructor; [|apply IH; exact Hnd'].
+    intros Hin. apply Hnotin. apply (In_fkeys_keep_live ps r q). exact Hin.
+  - apply IH; exact Hnd'.
+Qed.
+
+Lemma flook_keep_live ps (f : front) p :
+  flook (keep_live ps f) p = if mem p ps then flook f p else None.
+Proof.
+  induction f as [|[q e] r IH]; cbn [Sched.keep_live filter fst Sched.flook].
+  - destruct (mem p ps); reflexivity.
+  - fold (keep_live ps r). destruct (N.eqb_spec q p) as [Heq|Hne].
+    + subst. destruct (mem p ps) eqn:E; cbn [Sched.flook].
+      * rewrite N.eqb_refl. reflexivity.
+      * exact IH.
+    + destruct (mem q ps); cbn [Sched.flook]; [destruct (N.eqb_spec q p); [contradiction|]|]; exact IH.
+Qed.
+
+Lemma cnt_drop_notin now ps (f : front) p fin :
+  ~ In p (fkeys f) -> cnt_drop p fin (drop_events now ps f) = 0%nat.
+Proof.
+  induction f as [|[q e] r IH]; intros Hnotin; [reflexivity|].
+  cbn [fkeys map fst In] in Hnotin.
+  cbn [Sched.drop_events flat_map fst snd]. fold (drop_events now ps r).
+  unfold cnt_drop in *. rewrite len_filter_app, IH by tauto.
+  destruct (mem q ps); [reflexivity|]. destruct (fu e); [|reflexivity].
+  cbn [filter]. destruct (N.eqb_spec q p) as [Heq|Hne]; [exfalso; tauto|]. reflexivity.
+Qed.
+
+Lemma drop_no_inv_app now ps (f : front) p fin :
+  cnt_inv p fin (drop_events now ps f) = 0%nat /\ cnt_app p fin (drop_events now ps f) = 0%nat.
+Proof.
+  induction f as [|[q e] r [IH1 IH2]]; [split; reflexivity|].
+  cbn [Sched.drop_events flat_map fst snd]. fold (drop_events now ps r).
+  unfold cnt_inv, cnt_app in *. rewrite !len_filter_app, IH1, IH2.
+  destruct (mem q ps); [split; reflexivity|]. destruct (fu e); split; reflexivity.
+Qed.
+
+Lemma drop_pend now ps (f : front) p fin :
+  NoDup (fkeys f) ->
+  pend p fin f = (cnt_drop p fin (drop_events now ps f) + pend p fin (keep_live ps f))%nat.
+Proof.
+  induction f as [|[q e] r IH]; intros Hnd; [reflexivity|].
+  cbn [fkeys map fst] in Hnd. inversion Hnd as [|x l Hnotin Hnd']; subst.
+  cbn [Sched.drop_events flat_map fst snd]. fold (drop_events now ps r).
+  cbn [Sched.keep_live filter fst]. fold (keep_live ps r).
+  unfold cnt_drop. rewrite len_filter_app. fold (cnt_drop p fin (drop_events now ps r)).
+  destruct (N.eqb_spec q p) as [Heq|Hne].
+  - subst q. rewrite (cnt_drop_notin now ps r p fin Hnotin).
+    rewrite (pend_flook p fin ((p, e) :: r)). cbn [Sched.flook]. rewrite N.eqb_refl.
+    destruct (mem p ps) eqn:E.
+    + rewrite pend_flook. cbn [Sched.flook]. rewrite N.eqb_refl. reflexivity.
+    + rewrite pend_flook, flook_keep_live, E. unfold pend1.
+      destruct (fu e); [|reflexivity]. cbn [filter]. rewrite N.eqb_refl. cbn [andb].
+      destruct (ft e =? fin); reflexivity.
+  - assert (Hp : pend p fin ((q, e) :: r) = pend p fin r).
+    { rewrite !pend_flook. cbn [Sched.flook]. destruct (N.eqb_spec q p); [contradiction|reflexivity]. }
+    rewrite Hp, (IH Hnd').
+    assert (Hg : length (filter (fun e0 : event => match e0 with EDrop _ q0 f0 _ => (q0 =? p)%N && (f0 =? fin) | _ => false end)
+               (if mem q ps then [] else match fu e with Some _ => [EDrop Sg q (ft e) now] | None => [] end)) = 0%nat).
+    { destruct (mem q ps); [reflexivity|]. destruct (fu e); [|reflexivity]. cbn [filter].
+      destruct (N.eqb_spec q p); [contradiction|reflexivity]. }
+    rewrite Hg. destruct (mem q ps); [|reflexivity].
+    rewrite (pend_flook p fin ((q, e) :: _)). cbn [Sched.flook].
+    destruct (N.eqb_spec q p); [contradiction|]. rewrite <- pend_flook. reflexivity.
+Qed.
+
+(* ------------------------------------------------------------------ *)
+(* advance_quiet *)
+
+Definition aq1 (n : Z) (c : bool) (q : list pid) (p : pid) (e : fe) : fe :=
+  if mem p q then {| ft := n; fu := fu e; fq := if c then false else fq e |} else e.
+
+Lemma advance_quiet_map n c q (f : front) :
+  advance_quiet n c q f = map (fun pe => (fst pe, aq1 n c q (fst pe) (snd pe))) f.
+Proof.
+  unfold Sched.advance_quiet. apply map_ext. intros [p e]. unfold aq1. cbn [fst snd].
+  destruct (mem p q); reflexivity.
+Qed.
+
+Lemma In_advance_quiet n c q (f : front) p x :
+  In (p, x) (advance_quiet n c q f) <-> exists e, In (p, e) f /\ x = aq1 n c q p e.
+Proof.
+  rewrite advance_quiet_map, in_map_iff. split.
+  - intros [[p0 e] [H1 H2]]. cbn [fst snd] in H1. inversion H1; subst. eauto.
+  - intros [e [H1 H2]]. exists (p, e). subst. auto.
+Qed.
+
+Lemma fkeys_advance_quiet n c q (f : front) : fkeys (advance_quiet n c q f) = fkeys f.
+Proof. rewrite advance_quiet_map. unfold fkeys. rewrite map_map. reflexivity. Qed.
+
+Lemma flook_map_val (g : pid -> fe -> fe) (f : front) p :
+  flook (map (fun pe => (fst pe, g (fst pe) (snd pe))) f) p = option_map (g p) (flook f p).
+Proof.
+  induction f as [|[q e] r IH]; [reflexivity|].
+  cbn [map fst snd Sched.flook]. destruct (N.eqb_spec q p) as [Heq|Hne]; [subst; reflexivity|exact IH].
+Qed.
+
+Lemma flook_advance_quiet n c q (f : front) p :
+  flook (advance_quiet n c q f) p = option_map (aq1 n c q p) (flook f p).
+Proof. rewrite advance_quiet_map. apply flook_map_val. Qed.
+
+Lemma pend_advance_quiet n c q (f : front) p fin :
+  (forall e, In p q -> flook f p = Some e -> fu e = None) ->
+  pend p fin (advance_quiet n c q f) = pend p fin f.
+Proof.
+  intros H. rewrite !pend_flook, flook_advance_quiet.
+  destruct (flook f p) as [e|] eqn:E; [|reflexivity]. cbn [option_map].
+  unfold aq1. destruct (mem p q) eqn:M; [|reflexivity].
+  apply mem_In in M. specialize (H e M eq_refl). unfold pend1. cbn [Sched.fu]. rewrite H. reflexivity.
+Qed.
+
+(* ------------------------------------------------------------------ *)
+(* collect *)
+
+Definition col1 (now : Z) (e : fe) : fe :=
+  if ft e <=? now then {| ft := ft e; fu := None; fq := false |} else e.
+
+Definition colev (now : Z) (f : front) : list event :=
+  flat_map (fun pe => if ft (snd pe) <=? now
+                      then match fu (snd pe) with Some _ => [EApply Sg (fst pe) (ft (snd pe)) now] | None => [] end
+                      else []) f.
+
+Lemma collect_spec now (f : front) :
+  fst (fst (collect now f)) = map (fun pe => (fst pe, col1 now (snd pe))) f /\
+  snd (collect now f) = colev now f.
+Proof.
+  induction f as [|[p e] r [IH1 IH2]]; [split; reflexivity|].
+  cbn [Sched.collect]. destruct (collect now r) as [[r' us] ev]. cbn [fst snd] in IH1, IH2.
+  cbn [map colev flat_map fst snd]. fold (colev now r). unfold col1.
+  destruct (ft e <=? now); [destruct (fu e)|]; cbn [fst snd app]; subst; split; reflexivity.
+Qed.
+
+Lemma collect_inv now (f f2 : front) us ev :
+  collect now f = (f2, us, ev) ->
+  f2 = map (fun pe => (fst pe, col1 now (snd pe))) f /\ ev = colev now f.
+Proof.
+  intros H. pose proof (collect_spec now f) as [H1 H2]. rewrite H in H1, H2. cbn [fst snd] in H1, H2. auto.
+Qed.
+
+Definition colf (now : Z) (f : front) : front := map (fun pe => (fst pe, col1 now (snd pe))) f.
+
+Lemma In_colf now (f : front) p x : In (p, x) (colf now f) <-> exists e, In (p, e) f /\ x = col1 now e.
+Proof.
+  unfold colf. rewrite in_map_iff. split.
+  - intros [[p0 e] [H1 H2]]. cbn [fst snd] in H1. inversion H1; subst. eauto.
+  - intros [e [H1 H2]]. exists (p, e). subst. auto.
+Qed.
+
+Lemma fkeys_colf now (f : front) : fkeys (colf now f) = fkeys f.
+Proof. unfold colf, fkeys. rewrite map_map. reflexivity. Qed.
+
+Lemma flook_colf now (f : front) p : flook (colf now f) p = option_map (col1 now) (flook f p).
+Proof. unfold colf. apply (flook_map_val (fun _ => col1 now)). Qed.
+
+Lemma colev_spec now (f : front) :
+  Forall (fun v => exists p e u, In (p, e) f /\ fu e = Some u /\ ft e <= now /\ v = EApply Sg p (ft e) now)
+         (colev now f).
+Proof.
+  induction f as [|[p e] r IH]; [constructor|].
+  cbn [colev flat_map fst snd]. fold (colev now r). apply Forall_app. split.
+  - destruct (ft e <=? now) eqn:E; [|constructor]. destruct (fu e) as [u|] eqn:Eu; [|constructor].
+    constructor; [|constructor]. exists p, e, u. apply Z.leb_le in E. cbn [In]. auto.
+  - eapply Forall_impl; [|exact IH]. cbn beta. intros v [p0 [e0 [u [H1 H2]]]].
+    exists p0, e0, u. cbn [In]. auto.
+Qed.
+
+Lemma colev_no_inv_drop now (f : front) p fin :
+  cnt_inv p fin (colev now f) = 0%nat /\ cnt_drop p fin (colev now f) = 0%nat.
+Proof.
+  induction f as [|[q e] r [IH1 IH2]]; [split; reflexivity|].
+  cbn [colev flat_map fst snd]. fold (colev now r).
+  unfold cnt_inv, cnt_drop in *. rewrite !len_filter_app, IH1, IH2.
+  destruct (ft e <=? now); [|split; reflexivity]. destruct (fu e); split; reflexivity.
+Qed.
+
+Lemma cnt_app_notin now (f : front) p fin :
+  ~ In p (fkeys f) -> cnt_app p fin (colev now f) = 0%nat.
+Proof.
+  induction f as [|[q e] r IH]; intros Hnotin; [reflexivity|].
+  cbn [fkeys map fst In] in Hnotin.
+  cbn [colev flat_map fst snd]. fold (colev now r).
+  unfold cnt_app in *. rewrite len_filter_app, IH by tauto.
+  destruct (ft e <=? now); [|reflexivity]. destruct (fu e); [|reflexivity].
+  cbn [filter]. destruct (N.eqb_spec q p) as [Heq|Hne]; [exfalso; tauto|]. reflexivity.
+Qed.
+
+Lemma colev_pend now (f : front) p fin :
+  NoDup (fkeys f) ->
+  pend p fin f = (cnt_app p fin (colev now f) + pend p fin (colf now f))%nat.
+Proof.
+  induction f as [|[q e] r IH]; intros Hnd; [reflexivity|].
+  cbn [fkeys map fst] in Hnd. inversion Hnd as [|x l Hnotin Hnd']; subst.
+  cbn [colev flat_map fst snd]. fold (colev now r).
+  cbn [colf map fst snd]. fold (colf now r).
+  unfold cnt_app. rewrite len_filter_app. fold (cnt_app p fin (colev now r)).
+  rewrite (pend_flook p fin ((q, e) :: r)), (pend_flook p fin ((q, col1 now e) :: _)).
+  cbn [Sched.flook].
+  destruct (N.eqb_spec q p) as [Heq|Hne].
+  - subst q. rewrite (cnt_app_notin now r p fin Hnotin).
+    unfold col1, pend1. destruct (ft e <=? now); cbn [Sched.fu Sched.ft].
+    + destruct (fu e); [|reflexivity]. cbn [filter]. rewrite N.eqb_refl. cbn [andb].
+      destruct (ft e =? fin); reflexivity.
+    + cbn [filter length]. lia.
+  - rewrite <- !pend_flook, (IH Hnd').
+    assert (Hg : length (filter (fun e0 : event => match e0 with EApply _ q0 f0 _ => (q0 =? p)%N && (f0 =? fin) | _ => false end)
+               (if ft e <=? now then match fu e with Some _ => [EApply Sg q (ft e) now] | None => [] end else [])) = 0%nat).
+    { destruct (ft e <=? now); [|reflexivity]. destruct (fu e); [|reflexivity]. cbn [filter].
+      destruct (N.eqb_spec q p); [contradiction|reflexivity]. }
+    rewrite Hg. reflexivity.
+Qed.
+
+(* ------------------------------------------------------------------ *)
+(* next_event_fixed *)
+
+Definition nef_step (now : Z) (acc : Z) (pe : pid * fe) : Z :=
+  if (now <? ft (snd pe)) && (ft (snd pe) <? acc) then ft (snd pe) else acc.
+
+Lemma nef_fold_bounds now (f : front) : forall acc,
+  fold_left (nef_step now) f acc <= acc /\ (now <= acc -> now <= fold_left (nef_step now) f acc).
+Proof.
+  induction f as [|[p e] r IH]; intros acc; cbn [fold_left]; [lia|].
+  destruct (IH (nef_step now acc (p, e))) as [H1 H2].
+  unfold nef_step in *. cbn [snd] in *.
+  destruct ((now <? ft e) && (ft e <? acc)) eqn:E.
+  - apply andb_true_iff in E. destruct E as [E1 E2]. apply Z.ltb_lt in E1, E2. lia.
+  - lia.
+Qed.
+
+Lemma nef_fold_idle now (f : front) : forall acc,
+  (forall p e, In (p, e) f -> ft e <= now) -> fold_left (nef_step now) f acc = acc.
+Proof.
+  induction f as [|[p e] r IH]; intros acc H; cbn [fold_left]; [reflexivity|].
+  assert (Hs : nef_step now acc (p, e) = acc).
+  { unfold nef_step. cbn [snd]. assert (ft e <= now) by (apply (H p); left; reflexivity).
+    destruct (Z.ltb_spec now (ft e)); [lia|reflexivity]. }
+  rewrite Hs. apply IH. intros p0 e0 Hin. apply (H p0). right. exact Hin.
+Qed.
+
+Lemma nef_le now endt (f : front) : next_event_fixed now endt f <= endt.
+Proof. apply (nef_fold_bounds now f endt). Qed.
+
+Lemma nef_ge now endt (f : front) : now <= endt -> now <= next_event_fixed now endt f.
+Proof. apply (nef_fold_bounds now f endt). Qed.
+
+Lemma nef_idle now endt (f : front) :
+  (forall p e, In (p, e) f -> ft e <= now) -> next_event_fixed now endt f = endt.
+Proof. apply (nef_fold_idle now f endt). Qed.
+
+(* ------------------------------------------------------------------ *)
+(* one poll_one step *)
+
+Definition dflt (now : Z) : fe := {| ft := now; fu := None; fq := false |}.
+Definition ent (now : Z) (f : front) (p : pid) : fe :=
+  match flook f p with Some e => e | None => dflt now end.
+
+Lemma fset_same (f : front) p e : flook f p = Some e -> fset f p e = f.
+Proof.
+  induction f as [|[q e0] r IH]; cbn [Sched.flook Sched.fset]; intros H; [discriminate|].
+  destruct (N.eqb_spec q p) as [Heq|Hne].
+  - inversion H; subst. reflexivity.
+  - rewrite (IH H). reflexivity.
+Qed.
+
+Lemma fset_fset (f : front) p e e' : fset (fset f p e) p e' = fset f p e'.
+Proof.
+  induction f as [|[q e0] r IH]; cbn [Sched.fset].
+  - rewrite N.eqb_refl. reflexivity.
+  - destruct (N.eqb_spec q p) as [Heq|Hne]; cbn [Sched.fset].
+    + subst. rewrite N.eqb_refl. reflexivity.
+    + destruct (N.eqb_spec q p); [contradiction|]. rewrite IH. reflexivity.
+Qed.
+
+Lemma ent_cases now (f : front) p :
+  (flook f p = Some (ent now f p)) \/ (flook f p = None /\ ent now f p = dflt now).
+Proof. unfold ent. destruct (flook f p); auto. Qed.
+
+Lemma omin_spec o x : exists d, omin o x = Some d /\ d <= x /\
+  ((o = None /\ d = x) \/ (exists d0, o = Some d0 /\ d = Z.min d0 x)).
+Proof.
+  destruct o as [d0|]; cbn [omin].
+  - exists (Z.min d0 x). split; [reflexivity|]. split; [lia|]. right. eauto.
+  - exists x. split; [reflexivity|]. split; [lia|]. left. auto.
+Qed.
+
+Definition futof (force : bool) (endt t req : Z) : Z :=
+  if force then Z.min (t + req) endt else t + req.
+
+Lemma poll_one_inv now endt force sg (a : pl) p e a' :
+  e = ent now (pf a) p -> a' = step now endt force sg a p ->
+  exists e', pf a' = fset (pf a) p e' /\
+  ( (exists req w1 ts u,
+       poll (pw a) p sg = (req, w1) /\ ft e <= now /\ futof force endt (ft e) req <= endt /\
+       e' = {| ft := futof force endt (ft e) req; fu := Some u; fq := false |} /\
+       pfull a' = omin (pfull a) (futof force endt (ft e) req - now) /\ pquiet a' = pquiet a /\
+       plog a' = EInvoke Sg p (ft e) (futof force endt (ft e) req) ts req now sg :: plog a /\
+       pok a' = pok a && ((now <? futof force endt (ft e) req) || (force && (futof force endt (ft e) req =? endt))))
+    \/ (ft e <= now /\ e' = {| ft := ft e; fu := None; fq := true |} /\
+        pfull a' = pfull a /\ pquiet a' = pquiet a ++ [p] /\
+        plog a' = EQuiet Sg p now :: plog a /\ pok a' = pok a)
+    \/ (exists req w1,
+       poll (pw a) p sg = (req, w1) /\ ft e <= now /\ endt < futof force endt (ft e) req /\ e' = e /\
+       pfull a' = omin (pfull a) (futof force endt (ft e) req - now) /\ pquiet a' = pquiet a /\ plog a' = plog a /\
+       pok a' = pok a && (now <? futof force endt (ft e) req))
+    \/ (now < ft e /\ e' = e /\ pfull a' = omin (pfull a) (ft e - now) /\ pquiet a' = pquiet a /\
+        plog a' = plog a /\ pok a' = pok a) ).
+Proof.
+  intros He Ha'.
+  assert (Hf0 : match flook (pf a) p with Some _ => pf a | None => fset (pf a) p e end = fset (pf a) p e).
+  { subst e. unfold ent. destruct (flook (pf a) p) as [e0|] eqn:El; [|reflexivity].
+    symmetry. apply fset_same. exact El. }
+  subst a'. unfold Sched.poll_one. cbv zeta. fold (dflt now). fold (ent now (pf a) p). rewrite <- He.
+  rewrite Hf0. unfold futof.
+  destruct (Z.leb_spec (ft e) now) as [Hdue|Hdue].
+  - destruct (poll (pw a) p sg) as [req w1] eqn:Epoll.
+    match goal with |- context [?x <=? endt] => destruct (Z.leb_spec x endt) as [Hfut|Hfut] end.
+    + match goal with |- context [cond w1 p ?ts sg] => destruct (cond w1 p ts sg) as [c w2] eqn:Ec end.
+      destruct c.
+      * match goal with |- context [next w2 p ?ts sg] => destruct (next w2 p ts sg) as [u w3] eqn:En end.
+        eexists. split; [cbn [Sched.pf]; apply fset_fset|].
+        left. eexists req, w1, _, u. cbv zeta. cbn [Sched.pfull Sched.pquiet Sched.plog Sched.pok].
+        repeat split; auto.
+      * eexists. split; [cbn [Sched.pf]; apply fset_fset|].
+        right. left. cbn [Sched.pfull Sched.pquiet Sched.plog Sched.pok]. repeat split; auto.
+    + exists e. split; [reflexivity|]. right. right. left. exists req, w1. cbv zeta.
+      cbn [Sched.pfull Sched.pquiet Sched.plog Sched.pok]. repeat split; auto.
+  - exists e. split; [reflexivity|]. right. right. right.
+    cbn [Sched.pfull Sched.pquiet Sched.plog Sched.pok]. repeat split; auto.
+Qed.
+
+(* ------------------------------------------------------------------ *)
+(* invariants of the polling loop *)
+
+Ltac poll_cases now endt force sg a p :=
+  destruct (poll_one_inv now endt force sg a p _ _ eq_refl eq_refl)
+    as [e' [Hpf [(req & w1 & ts & u & Hpoll & Hdue & Hfut & He' & Hfull & Hq & Hlog & Hok)
+               | [(Hdue & He' & Hfull & Hq & Hlog & Hok)
+               | [(req & w1 & Hpoll & Hdue & Hfut & He' & Hfull & Hq & Hlog & Hok)
+               | (Hdue & He' & Hfull & Hq & Hlog & Hok)]]]]].
+
+Section Fold.
+Variables (now endt : Z) (force : bool) (sg : Sg).
+
+Definition Inv1 (rem : list pid) (a : pl) : Prop :=
+  NoDup rem /\ NoDup (fkeys (pf a)) /\
+  (forall q e u, In q rem -> flook (pf a) q = Some e -> fu e = Some u -> now < ft e) /\
+  (forall q e u, ~ In q rem -> flook (pf a) q = Some e -> fu e = Some u ->
+     exists d, pfull a = Some d /\ d <= ft e - now) /\
+  (forall q, In q (pquiet a) -> ~ In q rem) /\
+  (forall q e, In q (pquiet a) -> flook (pf a) q = Some e -> fu e = None).
+
+Lemma ent_future p l a u :
+  Inv1 (p :: l) a -> fu (ent now (pf a) p) = Some u -> now < ft (ent now (pf a) p).
+Proof.
+  intros (_ & _ & HA & _) Hu. destruct (ent_cases now (pf a) p) as [Hl|[Hl Hd]].
+  - apply (HA p _ u); [left; reflexivity|exact Hl|exact Hu].
+  - rewrite Hd in Hu. discriminate.
+Qed.
+
+Lemma ent_due_idle p l a :
+  Inv1 (p :: l) a -> ft (ent now (pf a) p) <= now -> fu (ent now (pf a) p) = None.
+Proof.
+  intros Hinv Hdue. destruct (fu (ent now (pf a) p)) as [u|] eqn:E; [|reflexivity].
+  pose proof (ent_future p l a u Hinv E). lia.
+Qed.
+
+Lemma inv1_step p l a : Inv1 (p :: l) a -> Inv1 l (step now endt force sg a p).
+Proof.
+  intros Hinv. pose proof Hinv as (Hnd & Hk & HA & HB & HD & HC).
+  inversion Hnd as [|x y Hpl Hndl]; subst.
+  pose proof (ent_due_idle p l a Hinv) as Hidle.
+  poll_cases now endt force sg a p; (split; [exact Hndl|]); (split; [rewrite Hpf; apply nodup_fset; exact Hk|]);
+  (split; [intros q e0 u0 Hin Hl Hu; assert (Hqp : q <> p) by (intros ->; contradiction);
+           rewrite Hpf, flook_fset_neq in Hl by exact Hqp;
+           apply (HA q e0 u0); [right; exact Hin|exact Hl|exact Hu]|]).
+  - (* invoke *)
+    split; [|split].
+    + intros q e0 u0 Hnin Hl Hu. rewrite Hpf in Hl. rewrite Hfull.
+      destruct (N.eq_dec q p) as [->|Hqp].
+      * rewrite flook_fset_eq in Hl. inversion Hl; subst e0. rewrite He'. cbn [Sched.ft].
+        destruct (omin_spec (pfull a) (futof force endt (ft (ent now (pf a) p)) req - now)) as [d [Hd [Hle _]]].
+        exists d. split; [exact Hd|lia].
+      * rewrite flook_fset_neq in Hl by exact Hqp.
+        destruct (HB q e0 u0) as [d0 [Hd0 Hle0]]; [intros [H|H]; [congruence|contradiction]|exact Hl|exact Hu|].
+        rewrite Hd0. cbn [omin]. eexists. split; [reflexivity|lia].
+    + intros q Hin. rewrite Hq in Hin. intros Hl. apply (HD q Hin). right. exact Hl.
+    + intros q e0 Hin Hl. rewrite Hq in Hin. rewrite Hpf in Hl.
+      assert (Hqp : q <> p) by (intros ->; apply (HD p Hin); left; reflexivity).
+      rewrite flook_fset_neq in Hl by exact Hqp. apply (HC q e0 Hin Hl).
+  - (* quiet *)
+    split; [|split].
+    + intros q e0 u0 Hnin Hl Hu. rewrite Hpf in Hl. rewrite Hfull.
+      destruct (N.eq_dec q p) as [->|Hqp].
+      * rewrite flook_fset_eq in Hl. inversion Hl; subst e0. rewrite He' in Hu. discriminate.
+      * rewrite flook_fset_neq in Hl by exact Hqp.
+        apply (HB q e0 u0); [intros [H|H]; [congruence|contradiction]|exact Hl|exact Hu].
+    + intros q Hin. rewrite Hq in Hin. apply in_app_iff in Hin. destruct Hin as [Hin|[<-|[]]].
+      * intros Hl. apply (HD q Hin). right. exact Hl.
+      * exact Hpl.
+    + intros q e0 Hin Hl. rewrite Hq in Hin. rewrite Hpf in Hl.
+      destruct (N.eq_dec q p) as [->|Hqp].
+      * rewrite flook_fset_eq in Hl. inversion Hl; subst e0. rewrite He'. reflexivity.
+      * rewrite flook_fset_neq in Hl by exact Hqp. apply in_app_iff in Hin.
+        destruct Hin as [Hin|[Heq|[]]]; [|congruence]. apply (HC q e0 Hin Hl).
+  - (* deferred *)
+    split; [|split].
+    + intros q e0 u0 Hnin Hl Hu. rewrite Hpf in Hl. rewrite Hfull.
+      destruct (N.eq_dec q p) as [->|Hqp].
+      * rewrite flook_fset_eq in Hl. inversion Hl; subst e0. rewrite He' in Hu.
+        rewrite (Hidle Hdue) in Hu. discriminate.
+      * rewrite flook_fset_neq in Hl by exact Hqp.
+        destruct (HB q e0 u0) as [d0 [Hd0 Hle0]]; [intros [H|H]; [congruence|contradiction]|exact Hl|exact Hu|].
+        rewrite Hd0. cbn [omin]. eexists. split; [reflexivity|lia].
+    + intros q Hin. rewrite Hq in Hin. intros Hl. apply (HD q Hin). right. exact Hl.
+    + intros q e0 Hin Hl. rewrite Hq in Hin. rewrite Hpf in Hl.
+      assert (Hqp : q <> p) by (intros ->; apply (HD p Hin); left; reflexivity).
+      rewrite flook_fset_neq in Hl by exact Hqp. apply (HC q e0 Hin Hl).
+  - (* not due *)
+    split; [|split].
+    + intros q e0 u0 Hnin Hl Hu. rewrite Hpf in Hl. rewrite Hfull.
+      destruct (N.eq_dec q p) as [->|Hqp].
+      * rewrite flook_fset_eq in Hl. inversion Hl; subst e0. rewrite He'.
+        destruct (omin_spec (pfull a) (ft (ent now (pf a) p) - now)) as [d [Hd [Hle _]]].
+        exists d. split; [exact Hd|lia].
+      * rewrite flook_fset_neq in Hl by exact Hqp.
+        destruct (HB q e0 u0) as [d0 [Hd0 Hle0]]; [intros [H|H]; [congruence|contradiction]|exact Hl|exact Hu|].
+        rewrite Hd0. cbn [omin]. eexists. split; [reflexivity|lia].
+    + intros q Hin. rewrite Hq in Hin. intros Hl. apply (HD q Hin). right. exact Hl.
+    + intros q e0 Hin Hl. rewrite Hq in Hin. rewrite Hpf in Hl.
+      assert (Hqp : q <> p) by (intros ->; apply (HD p Hin); left; reflexivity).
+      rewrite flook_fset_neq in Hl by exact Hqp. apply (HC q e0 Hin Hl).
+Qed.
+
+Lemma fold_inv1 : forall l a, Inv1 l a -> Inv1 [] (fold_left (step now endt force sg) l a).
+Proof.
+  induction l as [|p l IH]; intros a H; cbn [fold_left]; [exact H|].
+  apply IH. apply inv1_step. exact H.
+Qed.
+
+Lemma fold_gen (Q : list pid -> pl -> Prop) :
+  (forall p l a, Inv1 (p :: l) a -> Q (p :: l) a -> Q l (step now endt force sg a p)) ->
+  forall l a, Inv1 l a -> Q l a -> Q [] (fold_left (step now endt force sg) l a).
+Proof.
+  intros Hstep. induction l as [|p l IH]; intros a H HQ; cbn [fold_left]; [exact HQ|].
+  apply IH; [apply inv1_step; exact H|apply Hstep; assumption].
+Qed.
+
+Lemma fold_plain (Q : pl -> Prop) :
+  (forall p a, Q a -> Q (step now endt force sg a p)) ->
+  forall l a, Q a -> Q (fold_left (step now endt force sg) l a).
+Proof.
+  intros Hstep. induction l as [|p l IH]; intros a HQ; cbn [fold_left]; [exact HQ|].
+  apply IH. apply Hstep. exact HQ.
+Qed.
+
+(* balance of invocations against applications, drops and in-flight updates *)
+Definition Jb (a : pl) : Prop := forall q fin,
+  cnt_inv q fin (plog a) = (cnt_app q fin (plog a) + cnt_drop q fin (plog a) + pend q fin (pf a))%nat.
+
+Lemma pend_ent p fin (f : front) : pend p fin f = pend1 (ent now f p) fin.
+Proof. rewrite pend_flook. unfold ent. destruct (flook f p); reflexivity. Qed.
+
+Lemma jb_step p l a : Inv1 (p :: l) a -> Jb a -> Jb (step now endt force sg a p).
+Proof.
+  intros Hinv HJ q fin. specialize (HJ q fin).
+  pose proof (ent_due_idle p l a Hinv) as Hidle.
+  poll_cases now endt force sg a p; rewrite Hpf, Hlog.
+  - unfold cnt_inv, cnt_app, cnt_drop in *. cbn [filter].
+    destruct (N.eq_dec q p) as [->|Hqp].
+    + rewrite pend_fset_eq. rewrite (pend_ent p fin) in HJ. unfold pend1 in *.
+      rewrite (Hidle Hdue) in HJ. rewrite He'. cbn [Sched.fu Sched.ft]. rewrite N.eqb_refl. cbn [andb].
+      destruct (_ =? fin); cbn [length]; lia.
+    + rewrite pend_fset_neq by exact Hqp. destruct (N.eqb_spec p q); [congruence|]. cbn [andb]. exact HJ.
+  - unfold cnt_inv, cnt_app, cnt_drop in *. cbn [filter].
+    destruct (N.eq_dec q p) as [->|Hqp].
+    + rewrite pend_fset_eq. rewrite (pend_ent p fin) in HJ. unfold pend1 in *.
+      rewrite (Hidle Hdue) in HJ. rewrite He'. cbn [Sched.fu]. exact HJ.
+    + rewrite pend_fset_neq by exact Hqp. exact HJ.
+  - destruct (N.eq_dec q p) as [->|Hqp].
+    + rewrite pend_fset_eq, He', <- pend_ent. exact HJ.
+    + rewrite pend_fset_neq by exact Hqp. exact HJ.
+  - destruct (N.eq_dec q p) as [->|Hqp].
+    + rewrite pend_fset_eq, He', <- pend_ent. exact HJ.
+    + rewrite pend_fset_neq by exact Hqp. exact HJ.
+Qed.
+
+(* the loop only logs invocations and quiet marks *)
+Definition Klog (l0 : list event) (a : pl) : Prop :=
+  exists new, plog a = new ++ l0 /\ Forall (fun v => is_apply v = false) new.
+
+Lemma klog_step l0 p a : Klog l0 a -> Klog l0 (step now endt force sg a p).
+Proof.
+  intros [new [H1 H2]]. unfold Klog. poll_cases now endt force sg a p; rewrite Hlog, H1.
+  - eexists (_ :: new). split; [reflexivity|]. constructor; [reflexivity|exact H2].
+  - eexists (_ :: new). split; [reflexivity|]. constructor; [reflexivity|exact H2].
+  - exists new. auto.
+  - exists new. auto.
+Qed.
+
+(* front times stay within the call *)
+Definition Kle (a : pl) : Prop := forall q x, In (q, x) (pf a) -> ft x <= endt.
+
+Lemma ent_kle p a : now <= endt -> Kle a -> ft (ent now (pf a) p) <= endt.
+Proof.
+  intros Hle HK. destruct (ent_cases now (pf a) p) as [Hl|[Hl Hd]].
+  - apply (HK p). apply flook_In. exact Hl.
+  - rewrite Hd. cbn [Sched.ft dflt]. exact Hle.
+Qed.
+
+Lemma kle_step p a : now <= endt -> Kle a -> Kle (step now endt force sg a p).
+Proof.
+  intros Hle HK q x Hin. pose proof (ent_kle p a Hle HK) as Hent.
+  poll_cases now endt force sg a p; rewrite Hpf in Hin; apply In_fset in Hin;
+    (destruct Hin as [[-> ->]|Hin]; [|apply (HK _ _ Hin)]); rewrite He'; cbn [Sched.ft]; lia.
+Qed.
+
+Definition Ffull (a : pl) : Prop := Kle a /\ forall d, pfull a = Some d -> now + d <= endt.
+
+Lemma ffull_step p a : force = true -> now <= endt -> Ffull a -> Ffull (step now endt force sg a p).
+Proof.
+  intros Hf Hle [HK HF]. split; [apply kle_step; assumption|].
+  pose proof (ent_kle p a Hle HK) as Hent.
+  intros d Hd. poll_cases now endt force sg a p; rewrite Hfull in Hd.
+  - destruct (omin_spec (pfull a) (futof force endt (ft (ent now (pf a) p)) req - now)) as [d' [Hd' [Hle' _]]].
+    rewrite Hd' in Hd. inversion Hd; subst d'. lia.
+  - apply HF. exact Hd.
+  - subst force. unfold futof in Hfut. lia.
+  - destruct (omin_spec (pfull a) (ft (ent now (pf a) p) - now)) as [d' [Hd' [Hle' _]]].
+    rewrite Hd' in Hd. inversion Hd; subst d'. lia.
+Qed.
+
+(* idle fronts are not ahead of the clock *)
+Definition Gb (a : pl) : Prop := forall q x, In (q, x) (pf a) -> fu x = None -> ft x <= now.
+
+Lemma ent_gb p a : Gb a -> fu (ent now (pf a) p) = None -> ft (ent now (pf a) p) <= now.
+Proof.
+  intros HG Hu. destruct (ent_cases now (pf a) p) as [Hl|[Hl Hd]].
+  - apply (HG p); [apply flook_In; exact Hl|exact Hu].
+  - rewrite Hd. cbn [Sched.ft dflt]. lia.
+Qed.
+
+Lemma gb_step p a : Gb a -> Gb (step now endt force sg a p).
+Proof.
+  intros HG q x Hin Hu.
+  poll_cases now endt force sg a p; rewrite Hpf in Hin; apply In_fset in Hin;
+    (destruct Hin as [[-> ->]|Hin]; [|apply (HG _ _ Hin Hu)]).
+  - rewrite He' in Hu. discriminate.
+  - rewrite He'. cbn [Sched.ft]. exact Hdue.
+  - rewrite He'. exact Hdue.
+  - rewrite He' in *. apply ent_gb; assumption.
+Qed.
+
+Lemma omin_pos o x d :
+  (forall d0, o = Some d0 -> 0 <= d0) -> 0 <= x -> omin o x = Some d -> 0 <= d.
+Proof.
+  intros Ho Hx. destruct o as [d0|]; cbn [omin]; intros H; inversion H; subst.
+  - specialize (Ho d0 eq_refl). lia.
+  - exact Hx.
+Qed.
+
+Definition Hpos (a : pl) : Prop := pok a = true -> forall d, pfull a = Some d -> 0 <= d.
+
+Lemma hpos_step p a : now <= endt -> Hpos a -> Hpos (step now endt force sg a p).
+Proof.
+  intros Hle HH Hok' d Hd. poll_cases now endt force sg a p; rewrite Hok in Hok'; rewrite Hfull in Hd.
+  - apply andb_true_iff in Hok'. destruct Hok' as [Hok1 Hok2]. specialize (HH Hok1).
+    eapply omin_pos; [exact HH| |exact Hd].
+    apply orb_true_iff in Hok2. destruct Hok2 as [H|H].
+    + apply Z.ltb_lt in H. lia.
+    + apply andb_true_iff in H. destruct H as [_ H]. apply Z.eqb_eq in H. lia.
+  - apply (HH Hok' d Hd).
+  - apply andb_true_iff in Hok'. destruct Hok' as [Hok1 Hok2]. specialize (HH Hok1).
+    eapply omin_pos; [exact HH| |exact Hd]. apply Z.ltb_lt in Hok2. lia.
+  - specialize (HH Hok'). eapply omin_pos; [exact HH| |exact Hd]. lia.
+Qed.
+
+(* under force every visited idle process has been marked quiet *)
+Definition Tq (rem : list pid) (a : pl) : Prop :=
+  Gb a /\ forall q e, flook (pf a) q = Some e -> fu e = None -> ~ In q rem -> In q (pquiet a).
+
+Lemma tq_step p l a : force = true -> Tq (p :: l) a -> Tq l (step now endt force sg a p).
+Proof.
+  intros Hf [HG HT]. split; [apply gb_step; exact HG|].
+  intros q e0 Hl Hu Hnin.
+  poll_cases now endt force sg a p; rewrite Hpf in Hl; rewrite Hq;
+    (destruct (N.eq_dec q p) as [->|Hqp];
+     [rewrite flook_fset_eq in Hl; inversion Hl; subst e0
+     |rewrite flook_fset_neq in Hl by exact Hqp; (try (apply in_or_app; left));
+      apply (HT q e0 Hl Hu); intros [H|H]; [congruence|contradiction]]).
+  - rewrite He' in Hu. discriminate.
+  - apply in_or_app. right. left. reflexivity.
+  - subst force. unfold futof in Hfut. lia.
+  - rewrite He' in Hu. pose proof (ent_gb p a HG Hu). lia.
+Qed.
+
+(* idle fronts sit exactly at the clock *)
+Definition Gtt (a : pl) : Prop := forall q x, In (q, x) (pf a) -> fu x = None -> ft x = now.
+
+Lemma ent_gtt p a : Gtt a -> fu (ent now (pf a) p) = None -> ft (ent now (pf a) p) = now.
+Proof.
+  intros HG Hu. destruct (ent_cases now (pf a) p) as [Hl|[Hl Hd]].
+  - apply (HG p); [apply flook_In; exact Hl|exact Hu].
+  - rewrite Hd. reflexivity.
+Qed.
+
+Lemma gtt_step p l a : Inv1 (p :: l) a -> Gtt a -> Gtt (step now endt force sg a p).
+Proof.
+  intros Hinv HG q x Hin Hu. pose proof (ent_due_idle p l a Hinv) as Hidle.
+  poll_cases now endt force sg a p; rewrite Hpf in Hin; apply In_fset in Hin;
+    (destruct Hin as [[-> ->]|Hin]; [|apply (HG _ _ Hin Hu)]).
+  - rewrite He' in Hu. discriminate.
+  - rewrite He'. cbn [Sched.ft]. apply ent_gtt; [exact HG|apply Hidle; exact Hdue].
+  - rewrite He' in *. apply ent_gtt; assumption.
+  - rewrite He' in *. apply ent_gtt; assumption.
+Qed.
+
+Definition Tok (a : pl) : Prop := Gtt a /\ pok a = true.
+
+Lemma tok_step p l a :
+  force = true -> (forall w p x, 1 <= fst (poll w p x)) ->
+  Inv1 (p :: l) a -> Tok a -> Tok (step now endt force sg a p).
+Proof.
+  intros Hf Hreq Hinv [HG Hk]. split; [eapply gtt_step; eauto|].
+  pose proof (ent_due_idle p l a Hinv) as Hidle.
+  poll_cases now endt force sg a p; rewrite Hok, Hk; cbn [andb].
+  - pose proof (Hreq (pw a) p sg) as H1. rewrite Hpoll in H1. cbn [fst] in H1.
+    assert (H : ft (ent now (pf a) p) = now) by (apply ent_gtt; [exact HG|apply Hidle; exact Hdue]).
+    subst force. unfold futof. cbn [andb]. rewrite H.
+    destruct (Z.ltb_spec now (Z.min (now + req) endt)); [reflexivity|]. cbn [orb]. apply Z.eqb_eq. lia.
+  - reflexivity.
+  - subst force. unfold futof in Hfut. lia.
+  - reflexivity.
+Qed.
+
+End Fold.
+(* ------------------------------------------------------------------ *)
+(* one pass of the loop *)
+
+Definition Inv (s : st) : Prop := NoDup (procs s) /\ nodup_fronts s /\ pending_future s.
+
+Definition a0 (s : st) : pl :=
+  Build_pl Sg U W (keep_live (procs s) (frt s)) (wld s) None []
+           (rev (drop_events (gt s) (procs s) (frt s)) ++ log s) true.
+
+Definition polled (endt : Z) (force : bool) (s : st) : pl :=
+  fold_left (step (gt s) endt force (sto s)) (procs s) (a0 s).
+
+Lemma emit_after_rows ee now et x rows et' :
+  emit_after Sg vfixed ee now et x = (rows, et') -> Forall (fun v : event => is_emit v = true) rows.
+Proof.
+  unfold Sched.emit_after. destruct ee as [k|].
+  - destruct (et <=? now); cbn [v_fix_emit vfixed]; intros H; inversion H; subst; repeat constructor.
+  - intros H; inversion H; subst; repeat constructor.
+Qed.
+
+Lemma iter_cases ee endt force et s s' f' et' ok a :
+  iterv vfixed ee endt force et s = (s', f', et', ok) ->
+  a = polled endt force s ->
+  ok = pok a /\ f' = (if force && (gt s' =? endt) then false else force) /\
+  ( (pfull a = None /\ et' = et /\
+     s' = Build_st Sg U W (next_event_fixed (gt s) endt (pf a)) (procs s)
+            (advance_quiet (next_event_fixed (gt s) endt (pf a)) true (pquiet a) (pf a))
+            (sto s) (pw a) (plog a))
+  \/ (exists d rows us, pfull a = Some d /\ gt s + d <= endt /\
+      Forall (fun v : event => is_emit v = true) rows /\
+      s' = Build_st Sg U W (gt s + d) (snd (commit (sto s) (procs s) us))
+             (colf (gt s + d) (advance_quiet (gt s + d) false (pquiet a) (pf a)))
+             (fst (commit (sto s) (procs s) us)) (pw a)
+             (rows ++ rev (colev (gt s + d) (advance_quiet (gt s + d) false (pquiet a) (pf a))) ++ plog a))
+  \/ (exists d, pfull a = Some d /\ endt < gt s + d /\ et' = et /\
+      s' = Build_st Sg U W endt (procs s) (pf a) (sto s) (pw a) (plog a)) ).
+Proof.
+  intros H Ha. unfold polled, a0 in Ha. unfold Sched.iter in H. cbv zeta in H.
+  cbn [v_fix_quiet vfixed] in H. rewrite <- Ha in H. clear Ha.
+  destruct (pfull a) as [d|] eqn:Efull.
+  - revert H. destruct (Z.leb_spec (gt s + d) endt) as [Hle|Hgt]; intros H.
+    + destruct (collect (gt s + d) (advance_quiet (gt s + d) false (pquiet a) (pf a))) as [[f2 us] ev] eqn:Ec.
+      destruct (commit (sto s) (procs s) us) as [sto' procs'] eqn:Ecm.
+      destruct (emit_after Sg vfixed ee (gt s + d) et sto') as [rows et1] eqn:Eem.
+      apply collect_inv in Ec. destruct Ec as [Hf2 Hev].
+      apply emit_after_rows in Eem.
+      inversion H; subst. split; [reflexivity|]. split; [reflexivity|].
+      right. left. exists d, rows, us. rewrite Ecm. cbn [fst snd]. auto.
+    + inversion H; subst. split; [reflexivity|]. split; [reflexivity|].
+      right. right. exists d. auto.
+  - inversion H; subst. split; [reflexivity|]. split; [reflexivity|]. left. auto.
+Qed.
+
+Lemma inv1_init s : Inv s -> Inv1 (gt s) (procs s) (a0 s).
+Proof.
+  intros (Hnd & Hk & Hpf). unfold a0, Inv1. cbn [Sched.pf Sched.pfull Sched.pquiet].
+  split; [exact Hnd|]. split; [apply nodup_keep_live; exact Hk|].
+  split; [|split; [|split]].
+  - intros q e u Hin Hl Hu. rewrite flook_keep_live in Hl.
+    destruct (mem q (procs s)); [|discriminate]. apply flook_In in Hl. apply (Hpf q e u Hl Hu).
+  - intros q e u Hnin Hl Hu. rewrite flook_keep_live in Hl.
+    apply mem_false in Hnin. rewrite Hnin in Hl. discriminate.
+  - intros q [].
+  - intros q e [].
+Qed.
+
+Lemma polled_inv1 endt force s : Inv s -> Inv1 (gt s) [] (polled endt force s).
+Proof. intros H. apply fold_inv1. apply inv1_init. exact H. Qed.
+
+(* what the invariant says once every process has been visited *)
+Lemma inv1_final now a : Inv1 now [] a ->
+  NoDup (fkeys (pf a)) /\
+  (forall q e u, In (q, e) (pf a) -> fu e = Some u -> exists d, pfull a = Some d /\ d <= ft e - now) /\
+  (forall q e, In q (pquiet a) -> In (q, e) (pf a) -> fu e = None).
+Proof.
+  intros (_ & Hk & _ & HB & _ & HC). split; [exact Hk|]. split.
+  - intros q e u Hin Hu. apply (HB q e u); [intros []|apply In_flook; assumption|exact Hu].
+  - intros q e Hq Hin. apply (HC q e Hq). apply In_flook; assumption.
+Qed.
+
+Lemma polled_jb endt force s : Inv s -> balanced s -> Jb (polled endt force s).
+Proof.
+  intros Hinv Hbal. unfold polled.
+  apply (fold_gen (gt s) endt force (sto s) (fun _ a => Jb a)).
+  - intros p l a H1 H2. eapply jb_step; eauto.
+  - apply inv1_init. exact Hinv.
+  - intros q fin. unfold a0. cbn [Sched.pf Sched.plog]. specialize (Hbal q fin).
+    destruct Hinv as (_ & Hk & _).
+    rewrite (drop_pend (gt s) (procs s) (frt s) q fin Hk) in Hbal.
+    destruct (drop_no_inv_app (gt s) (procs s) (frt s) q fin) as [H1 H2].
+    unfold cnt_inv, cnt_app, cnt_drop in *. rewrite !len_filter_app, !len_filter_rev. lia.
+Qed.
+
+Lemma drop_no_apply now ps (f : front) : Forall (fun v : event => is_apply v = false) (drop_events now ps f).
+Proof.
+  induction f as [|[q e] r IH]; [constructor|].
+  cbn [Sched.drop_events flat_map fst snd]. apply Forall_app. split; [|exact IH].
+  destruct (mem q ps); [constructor|]. destruct (fu e); repeat constructor.
+Qed.
+
+Lemma polled_klog endt force s :
+  exists new, plog (polled endt force s) = new ++ log s /\ Forall (fun v : event => is_apply v = false) new.
+Proof.
+  assert (H : Klog (rev (drop_events (gt s) (procs s) (frt s)) ++ log s) (polled endt force s)).
+  { unfold polled. apply fold_plain.
+    - intros p a. apply klog_step.
+    - exists []. split; [reflexivity|constructor]. }
+  destruct H as [new [H1 H2]]. exists (new ++ rev (drop_events (gt s) (procs s) (frt s))).
+  split; [rewrite H1, app_assoc; reflexivity|]. apply Forall_app. split; [exact H2|].
+  apply Forall_rev. apply drop_no_apply.
+Qed.
+
+Lemma polled_kle endt force s : gt s <= endt -> fronts_le endt s -> Kle endt (polled endt force s).
+Proof.
+  intros Hle Hf. unfold polled. apply fold_plain.
+  - intros p a. apply kle_step. exact Hle.
+  - intros q x Hin. unfold a0 in Hin. cbn [Sched.pf] in Hin. apply In_keep_live in Hin.
+    apply (Hf q x). tauto.
+Qed.
+
+Lemma polled_ffull endt s :
+  gt s <= endt -> fronts_le endt s -> Ffull (gt s) endt (polled endt true s).
+Proof.
+  intros Hle Hf. unfold polled. apply fold_plain.
+  - intros p a. apply ffull_step; [reflexivity|exact Hle].
+  - split.
+    + intros q x Hin. unfold a0 in Hin. cbn [Sched.pf] in Hin. apply In_keep_live in Hin.
+      apply (Hf q x). tauto.
+    + intros d Hd. discriminate.
+Qed.
+
+Lemma a0_gb s : idle_behind s -> Gb (gt s) (a0 s).
+Proof.
+  intros Hi q x Hin Hu. unfold a0 in Hin. cbn [Sched.pf] in Hin. apply In_keep_live in Hin.
+  apply (Hi q x); tauto.
+Qed.
+
+Lemma polled_gb endt force s : idle_behind s -> Gb (gt s) (polled endt force s).
+Proof.
+  intros Hi. unfold polled. apply fold_plain.
+  - intros p a. apply gb_step.
+  - apply a0_gb. exact Hi.
+Qed.
+
+Lemma polled_hpos endt force s : gt s <= endt -> Hpos (polled endt force s).
+Proof.
+  intros Hle. unfold polled. apply (fold_plain (gt s) endt force (sto s)).
+  - intros p a. apply hpos_step. exact Hle.
+  - intros _ d Hd. discriminate.
+Qed.
+
+Lemma polled_tq endt s : Inv s -> idle_behind s -> Tq (gt s) [] (polled endt true s).
+Proof.
+  intros Hinv Hi. unfold polled. apply (fold_gen (gt s) endt true (sto s) (Tq (gt s))).
+  - intros p l a _ H. apply tq_step; [reflexivity|exact H].
+  - apply inv1_init. exact Hinv.
+  - split; [apply a0_gb; exact Hi|].
+    intros q e Hl Hu Hnin. unfold a0 in Hl. cbn [Sched.pf] in Hl. rewrite flook_keep_live in Hl.
+    apply mem_false in Hnin. rewrite Hnin in Hl. discriminate.
+Qed.
+
+Lemma polled_tok endt s :
+  (forall w p x, 1 <= fst (poll w p x)) -> Inv s -> idle_tight s -> Tok (gt s) (polled endt true s).
+Proof.
+  intros Hreq Hinv Hi. unfold polled. apply (fold_gen (gt s) endt true (sto s) (fun _ a => Tok (gt s) a)).
+  - intros p l a H1 H2. eapply tok_step; eauto.
+  - apply inv1_init. exact Hinv.
+  - split; [|reflexivity]. intros q x Hin Hu. unfold a0 in Hin. cbn [Sched.pf] in Hin.
+    apply In_keep_live in Hin. apply (Hi q x); tauto.
+Qed.
+
+Lemma fu_aq1 n c q p e : fu (aq1 n c q p e) = fu e.
+Proof. unfold aq1. destruct (mem p q); reflexivity. Qed.
+
+Lemma aq1_cases n c q p e :
+  (In p q /\ aq1 n c q p e = {| ft := n; fu := fu e; fq := if c then false else fq e |})
+  \/ (~ In p q /\ aq1 n c q p e = e).
+Proof.
+  unfold aq1. destruct (mem p q) eqn:E.
+  - left. apply mem_In in E. auto.
+  - right. apply mem_false in E. auto.
+Qed.
+
+Lemma ft_col1 now e : ft (col1 now e) = ft e.
+Proof. unfold col1. destruct (ft e <=? now); reflexivity. Qed.
+
+Lemma col1_cases now e :
+  (ft e <= now /\ col1 now e = {| ft := ft e; fu := None; fq := false |}) \/ (now < ft e /\ col1 now e = e).
+Proof. unfold col1. destruct (Z.leb_spec (ft e) now); auto. Qed.
+
+(* ------------------------------------------------------------------ *)
+(* the invariant *)
+
+Theorem init_inv t0 ps s0 w0 : NoDup ps ->
+  let s := init Sg U W t0 ps s0 w0 in
+  Inv s /\ balanced s /\ idle_tight s /\ log_app_ok (log s) /\ fronts_le t0 s.
+Proof.
+  intros Hnd s.
+  assert (Hin : forall p e, In (p, e) (frt s) -> e = {| ft := t0; fu := None; fq := false |}).
+  { intros p e H. subst s. unfold init in H. cbn [Sched.frt] in H. apply in_map_iff in H.
+    destruct H as [x [H _]]. inversion H. reflexivity. }
+  split; [|split; [|split; [|split]]].
+  - split; [exact Hnd|]. split.
+    + unfold nodup_fronts, fkeys. subst s. unfold init. cbn [Sched.frt]. rewrite map_map. cbn [fst].
+      rewrite map_id. exact Hnd.
+    + intros p e u H Hu. apply Hin in H. subst e. discriminate.
+  - intros p fin. rewrite pend_flook. destruct (flook (frt s) p) as [e|] eqn:E; [|reflexivity].
+    apply flook_In in E. apply Hin in E. subst e. reflexivity.
+  - intros p e H _. apply Hin in H. subst e. reflexivity.
+  - subst s. unfold init, log_app_ok. cbn [Sched.log]. repeat constructor.
+  - intros p e H. apply Hin in H. subst e. cbn [Sched.ft]. subst s. cbn. lia.
+Qed.
+
+Theorem iter_inv ee endt force et s s' f' et' ok :
+  Inv s -> iterv vfixed ee endt force et s = (s', f', et', ok) -> Inv s'.
+Proof.
+  intros Hinv H.
+  destruct (iter_cases _ _ _ _ _ _ _ _ _ _ H eq_refl) as (_ & _ & Hc).
+  pose proof (inv1_final _ _ (polled_inv1 endt force s Hinv)) as (Hk & HB & HC).
+  pose proof Hinv as (Hnd & _ & _).
+  destruct Hc as [(Hfull & _ & ->) | [(d & rows & us & Hfull & Hle & Hrows & ->) | (d & Hfull & Hgt & _ & ->)]];
+    unfold Inv, nodup_fronts, pending_future; cbn [Sched.procs Sched.frt Sched.gt].
+  - split; [exact Hnd|]. split; [rewrite fkeys_advance_quiet; exact Hk|].
+    intros p x u Hin Hu. apply In_advance_quiet in Hin. destruct Hin as [e [Hin ->]].
+    rewrite fu_aq1 in Hu. destruct (HB p e u Hin Hu) as [d [Hd _]]. congruence.
+  - split; [apply commit_nodup; exact Hnd|].
+    split; [rewrite fkeys_colf, fkeys_advance_quiet; exact Hk|].
+    intros p x u Hin Hu. apply In_colf in Hin. destruct Hin as [e [Hin ->]].
+    destruct (col1_cases (gt s + d) e) as [[_ Hx]|[Hlt Hx]]; rewrite Hx in *; [discriminate|exact Hlt].
+  - split; [exact Hnd|]. split; [exact Hk|].
+    intros p e u Hin Hu. destruct (HB p e u Hin Hu) as [d' [Hd' Hle']]. rewrite Hfull in Hd'.
+    inversion Hd'; subst d'. lia.
+Qed.
+
+(* ------------------------------------------------------------------ *)
+(* C01: on time, exactly once *)
+
+Lemma no_apply_on_time (g : Z) (l : list event) :
+  Forall (fun v : event => is_apply v = false) l ->
+  Forall (fun e : event => match e with EApply _ p fin now => now = fin /\ now = g | _ => True end) l.
+Proof.
+  intros H. eapply Forall_impl; [|exact H]. intros [] Hv; try exact I. discriminate.
+Qed.
+
+Theorem iter_apply_on_time ee endt force et s s' f' et' ok :
+  Inv s -> iterv vfixed ee endt force et s = (s', f', et', ok) ->
+  exists new, log s' = new ++ log s /\
+    Forall (fun e => match e with EApply _ p fin now => now = fin /\ now = gt s' | _ => True end) new.
+Proof.
+  intros Hinv H.
+  destruct (iter_cases _ _ _ _ _ _ _ _ _ _ H eq_refl) as (_ & _ & Hc).
+  pose proof (inv1_final _ _ (polled_inv1 endt force s Hinv)) as (Hk & HB & HC).
+  destruct (polled_klog endt force s) as [new [Hlog Hnew]].
+  destruct Hc as [(Hfull & _ & ->) | [(d & rows & us & Hfull & Hle & Hrows & ->) | (d & Hfull & Hgt & _ & ->)]];
+    cbn [Sched.log Sched.gt].
+  - exists new. split; [exact Hlog|]. apply no_apply_on_time. exact Hnew.
+  - eexists (rows ++ rev _ ++ new). split; [rewrite Hlog, <- !app_assoc; reflexivity|].
+    apply Forall_app. split; [|apply Forall_app; split].
+    + eapply Forall_impl; [|exact Hrows]. intros [] Hv; try exact I. discriminate.
+    + apply Forall_rev. eapply Forall_impl; [|apply colev_spec]. cbn beta.
+      intros v (p & e & u & Hin & Hu & Hdue & ->). split; [|reflexivity].
+      apply In_advance_quiet in Hin. destruct Hin as [e0 [Hin ->]].
+      destruct (aq1_cases (gt s + d) false (pquiet (polled endt force s)) p e0) as [[_ Hx]|[_ Hx]];
+        rewrite Hx in *; [reflexivity|].
+      destruct (HB p e0 u Hin Hu) as [d' [Hd' Hle']]. rewrite Hfull in Hd'. inversion Hd'; subst d'. lia.
+    + apply no_apply_on_time. exact Hnew.
+  - exists new. split; [exact Hlog|]. apply no_apply_on_time. exact Hnew.
+Qed.
+
+Lemma cnt_emits (rows : list event) p fin :
+  Forall (fun v : event => is_emit v = true) rows ->
+  cnt_inv p fin rows = 0%nat /\ cnt_app p fin rows = 0%nat /\ cnt_drop p fin rows = 0%nat.
+Proof.
+  induction 1 as [|v l Hv _ IH]; [repeat split; reflexivity|].
+  destruct v; try discriminate. exact IH.
+Qed.
+
+Theorem iter_balanced ee endt force et s s' f' et' ok :
+  Inv s -> balanced s -> iterv vfixed ee endt force et s = (s', f', et', ok) -> balanced s'.
+Proof.
+  intros Hinv Hbal H.
+  destruct (iter_cases _ _ _ _ _ _ _ _ _ _ H eq_refl) as (_ & _ & Hc).
+  pose proof (inv1_final _ _ (polled_inv1 endt force s Hinv)) as (Hk & HB & HC).
+  pose proof (polled_jb endt force s Hinv Hbal) as HJ.
+  assert (Hpend : forall n c p fin,
+            pend p fin (advance_quiet n c (pquiet (polled endt force s)) (pf (polled endt force s)))
+            = pend p fin (pf (polled endt force s))).
+  { intros n c p fin. apply pend_advance_quiet. intros e Hq Hl. apply (HC p e Hq). apply flook_In. exact Hl. }
+  destruct Hc as [(Hfull & _ & ->) | [(d & rows & us & Hfull & Hle & Hrows & ->) | (d & Hfull & Hgt & _ & ->)]];
+    intros p fin; cbn [Sched.log Sched.frt]; specialize (HJ p fin).
+  - rewrite Hpend. exact HJ.
+  - destruct (cnt_emits rows p fin Hrows) as (R1 & R2 & R3).
+    set (f1 := advance_quiet (gt s + d) false (pquiet (polled endt force s)) (pf (polled endt force s))) in *.
+    destruct (colev_no_inv_drop (gt s + d) f1 p fin) as [C1 C2].
+    assert (Hk1 : NoDup (fkeys f1)) by (subst f1; rewrite fkeys_advance_quiet; exact Hk).
+    pose proof (colev_pend (gt s + d) f1 p fin Hk1) as C3.
+    subst f1. rewrite Hpend in C3.
+    unfold cnt_inv, cnt_app, cnt_drop in *. rewrite !len_filter_app, !len_filter_rev. lia.
+  - exact HJ.
+Qed.
+
+(* ------------------------------------------------------------------ *)
+(* fronts stay within the call *)
+
+Theorem iter_fronts_le ee endt force et s s' f' et' ok :
+  gt s <= endt -> fronts_le endt s -> iterv vfixed ee endt force et s = (s', f', et', ok) ->
+  fronts_le endt s' /\ gt s' <= endt.
+Proof.
+  intros Hle Hf H.
+  destruct (iter_cases _ _ _ _ _ _ _ _ _ _ H eq_refl) as (_ & _ & Hc).
+  pose proof (polled_kle endt force s Hle Hf) as HK.
+  destruct Hc as [(Hfull & _ & ->) | [(d & rows & us & Hfull & Hle' & Hrows & ->) | (d & Hfull & Hgt & _ & ->)]];
+    unfold fronts_le; cbn [Sched.gt Sched.frt].
+  - pose proof (nef_le (gt s) endt (pf (polled endt force s))) as Hne.
+    split; [|exact Hne]. intros p x Hin. apply In_advance_quiet in Hin. destruct Hin as [e [Hin ->]].
+    pose proof (HK p e Hin).
+    destruct (aq1_cases (next_event_fixed (gt s) endt (pf (polled endt force s))) true
+                (pquiet (polled endt force s)) p e) as [[_ Hx]|[_ Hx]]; rewrite Hx; cbn [Sched.ft]; lia.
+  - split; [|exact Hle']. intros p x Hin. apply In_colf in Hin. destruct Hin as [e1 [Hin ->]].
+    rewrite ft_col1. apply In_advance_quiet in Hin. destruct Hin as [e [Hin ->]].
+    pose proof (HK p e Hin).
+    destruct (aq1_cases (gt s + d) false (pquiet (polled endt force s)) p e) as [[_ Hx]|[_ Hx]];
+      rewrite Hx; cbn [Sched.ft]; lia.
+  - split; [exact HK|lia].
+Qed.
+
+(* ------------------------------------------------------------------ *)
+(* C02 *)
+
+Theorem iter_idle_behind ee endt force et s s' f' et' :
+  Inv s -> idle_behind s -> gt s <= endt ->
+  iterv vfixed ee endt force et s = (s', f', et', true) -> idle_behind s'.
+Proof.
+  intros Hinv Hi Hle H.
+  destruct (iter_cases _ _ _ _ _ _ _ _ _ _ H eq_refl) as (Hok & _ & Hc).
+  pose proof (polled_gb endt force s Hi) as HG.
+  pose proof (polled_hpos endt force s Hle (eq_sym Hok)) as HH.
+  destruct Hc as [(Hfull & _ & ->) | [(d & rows & us & Hfull & Hle' & Hrows & ->) | (d & Hfull & Hgt & _ & ->)]];
+    unfold idle_behind; cbn [Sched.gt Sched.frt].
+  - pose proof (nef_ge (gt s) endt (pf (polled endt force s)) Hle) as Hne.
+    intros p x Hin Hu. apply In_advance_quiet in Hin. destruct Hin as [e [Hin ->]].
+    rewrite fu_aq1 in Hu. pose proof (HG p e Hin Hu).
+    destruct (aq1_cases (next_event_fixed (gt s) endt (pf (polled endt force s))) true
+                (pquiet (polled endt force s)) p e) as [[_ Hx]|[_ Hx]]; rewrite Hx; cbn [Sched.ft]; lia.
+  - specialize (HH d Hfull).
+    intros p x Hin Hu. apply In_colf in Hin. destruct Hin as [e1 [Hin ->]].
+    destruct (col1_cases (gt s + d) e1) as [[Hd Hx]|[Hd Hx]]; rewrite Hx in *; [cbn [Sched.ft]; exact Hd|].
+    apply In_advance_quiet in Hin. destruct Hin as [e [Hin ->]].
+    rewrite fu_aq1 in Hu. pose proof (HG p e Hin Hu).
+    destruct (aq1_cases (gt s + d) false (pquiet (polled endt force s)) p e) as [[_ Hx']|[_ Hx']];
+      rewrite Hx'; cbn [Sched.ft]; lia.
+  - intros p e Hin Hu. pose proof (HG p e Hin Hu). lia.
+Qed.
+
+(* the pass of a forced run that reaches end_time leaves every process complete *)
+Lemma iter_final_complete ee endt et s s' f' et' ok :
+  Inv s -> idle_behind s -> fronts_le endt s -> gt s <= endt ->
+  iterv vfixed ee endt true et s = (s', f', et', ok) -> gt s' = endt ->
+  complete Sg U W s' = true.
+Proof.
+  intros Hinv Hi Hf Hle H Hend.
+  destruct (iter_cases _ _ _ _ _ _ _ _ _ _ H eq_refl) as (_ & _ & Hc).
+  pose proof (inv1_final _ _ (polled_inv1 endt true s Hinv)) as (Hk & HB & HC).
+  pose proof (polled_tq endt s Hinv Hi) as [HG HT].
+  pose proof (polled_ffull endt s Hle Hf) as [HK HF].
+  assert (HT' : forall p e, In (p, e) (pf (polled endt true s)) -> fu e = None ->
+                            In p (pquiet (polled endt true s))).
+  { intros p e Hin Hu. apply (HT p e); [apply In_flook; assumption|exact Hu|intros []]. }
+  unfold complete. apply forallb_forall. intros [p x] Hin. cbn [snd].
+  destruct Hc as [(Hfull & _ & ->) | [(d & rows & us & Hfull & Hle' & Hrows & ->) | (d & Hfull & Hgt & _ & ->)]];
+    cbn [Sched.gt Sched.frt] in *.
+  - assert (Hnone : forall q e, In (q, e) (pf (polled endt true s)) -> fu e = None).
+    { intros q e Hq. destruct (fu e) as [u|] eqn:Eu; [|reflexivity].
+      destruct (HB q e u Hq Eu) as [d [Hd _]]. congruence. }
+    apply In_advance_quiet in Hin. destruct Hin as [e [Hin ->]].
+    pose proof (Hnone p e Hin) as Hu. pose proof (HT' p e Hin Hu) as Hq.
+    destruct (aq1_cases (next_event_fixed (gt s) endt (pf (polled endt true s))) true
+                (pquiet (polled endt true s)) p e) as [[_ Hx]|[Hn _]]; [|contradiction].
+    rewrite Hx. cbn [Sched.ft Sched.fu Sched.fq]. rewrite Hu, Z.eqb_refl. reflexivity.
+  - apply In_colf in Hin. destruct Hin as [e1 [Hin ->]].
+    apply In_advance_quiet in Hin. destruct Hin as [e [Hin ->]].
+    assert (H1 : ft (aq1 (gt s + d) false (pquiet (polled endt true s)) p e) = gt s + d).
+    { destruct (aq1_cases (gt s + d) false (pquiet (polled endt true s)) p e) as [[_ Hx]|[Hn Hx]];
+        rewrite Hx; cbn [Sched.ft]; [reflexivity|].
+      pose proof (HK p e Hin). destruct (fu e) as [u|] eqn:Eu.
+      - destruct (HB p e u Hin Eu) as [d' [Hd' Hle'']]. rewrite Hfull in Hd'. inversion Hd'; subst d'. lia.
+      - exfalso. apply Hn. apply (HT' p e Hin Eu). }
+    destruct (col1_cases (gt s + d) (aq1 (gt s + d) false (pquiet (polled endt true s)) p e))
+      as [[_ Hx]|[Hlt _]]; [|lia].
+    rewrite Hx. cbn [Sched.ft Sched.fu Sched.fq]. rewrite H1, Z.eqb_refl. reflexivity.
+  - specialize (HF d Hfull). lia.
+Qed.
+
+(* ------------------------------------------------------------------ *)
+(* forced passes never lag *)
+
+Theorem ok_forced ee endt et s s' f' et' ok :
+  (forall w p x, 1 <= fst (poll w p x)) ->
+  Inv s -> idle_tight s -> fronts_le endt s -> gt s <= endt ->
+  iterv vfixed ee endt true et s = (s', f', et', ok) ->
+  ok = true /\ idle_tight s' /\ fronts_le endt s' /\ Inv s'.
+Proof.
+  intros Hreq Hinv Hi Hf Hle H.
+  assert (Hib : idle_behind s).
+  { intros p e Hin Hu. rewrite (Hi p e Hin Hu). lia. }
+  destruct (iter_cases _ _ _ _ _ _ _ _ _ _ H eq_refl) as (Hok & _ & Hc).
+  pose proof (inv1_final _ _ (polled_inv1 endt true s Hinv)) as (Hk & HB & HC).
+  pose proof (polled_tq endt s Hinv Hib) as [HG HT].
+  pose proof (polled_ffull endt s Hle Hf) as [HK HF].
+  pose proof (polled_tok endt s Hreq Hinv Hi) as [_ Hpok].
+  assert (HT' : forall p e, In (p, e) (pf (polled endt true s)) -> fu e = None ->
+                            In p (pquiet (polled endt true s))).
+  { intros p e Hin Hu. apply (HT p e); [apply In_flook; assumption|exact Hu|intros []]. }
+  split; [congruence|].
+  split; [|split; [exact (proj1 (iter_fronts_le _ _ _ _ _ _ _ _ _ Hle Hf H))|eapply iter_inv; eauto]].
+  destruct Hc as [(Hfull & _ & ->) | [(d & rows & us & Hfull & Hle' & Hrows & ->) | (d & Hfull & Hgt & _ & ->)]];
+    unfold idle_tight; cbn [Sched.gt Sched.frt].
+  - intros p x Hin Hu. apply In_advance_quiet in Hin. destruct Hin as [e [Hin ->]].
+    rewrite fu_aq1 in Hu. pose proof (HT' p e Hin Hu) as Hq.
+    destruct (aq1_cases (next_event_fixed (gt s) endt (pf (polled endt true s))) true
+                (pquiet (polled endt true s)) p e) as [[_ Hx]|[Hn _]]; [|contradiction].
+    rewrite Hx. reflexivity.
+  - intros p x Hin Hu. apply In_colf in Hin. destruct Hin as [e1 [Hin ->]].
+    rewrite ft_col1. apply In_advance_quiet in Hin. destruct Hin as [e [Hin ->]].
+    destruct (aq1_cases (gt s + d) false (pquiet (polled endt true s)) p e) as [[_ Hx]|[Hn Hx]];
+      rewrite Hx in *; cbn [Sched.ft]; [reflexivity|].
+    destruct (fu e) as [u|] eqn:Eu.
+    + destruct (HB p e u Hin Eu) as [d' [Hd' Hle'']]. rewrite Hfull in Hd'. inversion Hd'; subst d'.
+      destruct (col1_cases (gt s + d) e) as [[Hd _]|[_ Hx']]; [lia|]. rewrite Hx' in Hu. congruence.
+    + exfalso. apply Hn. apply (HT' p e Hin Eu).
+  - specialize (HF d Hfull). lia.
+Qed.
+
+(* ------------------------------------------------------------------ *)
+(* the loop *)
+
+Lemma run_gen (P : st -> Prop) ee endt :
+  (forall force et s s' f' et' ok,
+     P s -> iterv vfixed ee endt force et s = (s', f', et', ok) -> P s') ->
+  forall fuel force et s s' ok,
+    P s -> runv vfixed ee fuel endt force et s = (Some s', ok) -> P s' /\ endt <= gt s'.
+Proof.
+  intros Hstep. induction fuel as [|n IH]; intros force et s s' ok HP H; cbn [Sched.run] in H.
+  - destruct ((gt s <? endt) || force) eqn:E; [discriminate|]. inversion H; subst.
+    apply orb_false_iff in E. destruct E as [E _]. apply Z.ltb_ge in E. auto.
+  - destruct ((gt s <? endt) || force) eqn:E.
+    + destruct (iterv vfixed ee endt force et s) as [[[s1 f1] et1] ok1] eqn:Ei.
+      destruct (runv vfixed ee n endt f1 et1 s1) as [r ok2] eqn:Er.
+      inversion H; subst. eapply IH; [eapply Hstep; eauto|exact Er].
+    + inversion H; subst. apply orb_false_iff in E. destruct E as [E _]. apply Z.ltb_ge in E. auto.
+Qed.
+
+Lemma iter_log_app_ok ee endt force et s s' f' et' ok :
+  Inv s -> log_app_ok (log s) -> iterv vfixed ee endt force et s = (s', f', et', ok) ->
+  log_app_ok (log s').
+Proof.
+  intros Hinv Hl H. destruct (iter_apply_on_time _ _ _ _ _ _ _ _ _ Hinv H) as [new [-> Hnew]].
+  unfold log_app_ok. apply Forall_app. split; [|exact Hl].
+  eapply Forall_impl; [|exact Hnew]. intros [] Hv; try exact I. tauto.
+Qed.
+
+Theorem run_once ee fuel endt force : forall et s s' ok,
+  Inv s -> balanced s -> log_app_ok (log s) ->
+  runv vfixed ee fuel endt force et s = (Some s', ok) ->
+  Inv s' /\ balanced s' /\ log_app_ok (log s').
+Proof.
+  intros et s s' ok Hinv Hbal Hl H.
+  apply (run_gen (fun s => Inv s /\ balanced s /\ log_app_ok (log s)) ee endt) in H; [tauto| |tauto].
+  clear - commit_nodup. intros force et s s' f' et' ok (Hinv & Hbal & Hl) H.
+  split; [eapply iter_inv; eauto|]. split; [eapply iter_balanced; eauto|eapply iter_log_app_ok; eauto].
+Qed.
+
+Theorem run_calls_once ee fuel calls : forall s s' ok,
+  Inv s -> balanced s -> log_app_ok (log s) ->
+  run_callsv vfixed ee fuel calls s = (Some s', ok) ->
+  Inv s' /\ balanced s' /\ log_app_ok (log s').
+Proof.
+  induction calls as [|[i f] rest IH]; intros s s' ok Hinv Hbal Hl H; cbn [Sched.run_calls] in H.
+  - inversion H; subst. auto.
+  - destruct (run_forv vfixed ee fuel i f s) as [[s1|] ok1] eqn:Er; [|discriminate].
+    destruct (run_callsv vfixed ee fuel rest s1) as [r' ok'] eqn:Ec.
+    inversion H; subst. unfold Sched.run_for in Er.
+    apply run_once in Er; [|assumption..]. destruct Er as (H1 & H2 & H3).
+    eapply IH; eauto.
+Qed.
+
+Theorem no_pending_at_return ee fuel endt force : forall et s s' ok,
+  Inv s -> fronts_le endt s -> gt s <= endt ->
+  runv vfixed ee fuel endt force et s = (Some s', ok) ->
+  (forall p e, In (p, e) (frt s') -> fu e = None) /\ fronts_le (gt s') s' /\ gt s' = endt.
+Proof.
+  intros et s s' ok Hinv Hf Hle H.
+  apply (run_gen (fun s => Inv s /\ fronts_le endt s /\ gt s <= endt) ee endt) in H; [| |tauto].
+  - destruct H as [(Hinv' & Hf' & Hle') Hge]. assert (Heq : gt s' = endt) by lia.
+    split; [|split; [rewrite Heq; exact Hf'|exact Heq]].
+    intros p e Hin. destruct (fu e) as [u|] eqn:Eu; [|reflexivity].
+    destruct Hinv' as (_ & _ & Hpf). pose proof (Hpf p e u Hin Eu). pose proof (Hf' p e Hin). lia.
+  - clear - commit_nodup. intros force et s s' f' et' ok (Hinv & Hf & Hle) H.
+    split; [eapply iter_inv; eauto|]. eapply iter_fronts_le; eauto.
+Qed.
+
+Corollary all_applied_at_return ee fuel endt force et s s' ok :
+  Inv s -> balanced s -> fronts_le endt s -> gt s <= endt ->
+  runv vfixed ee fuel endt force et s = (Some s', ok) ->
+  forall p fin, cnt_inv p fin (log s') = (cnt_app p fin (log s') + cnt_drop p fin (log s'))%nat.
+Proof.
+  intros Hinv Hbal Hf Hle H p fin.
+  destruct (no_pending_at_return _ _ _ _ _ _ _ _ Hinv Hf Hle H) as (Hnone & _ & _).
+  apply (run_gen (fun s => Inv s /\ balanced s) ee endt) in H; [| |tauto].
+  - destruct H as [(_ & Hbal') _]. rewrite (Hbal' p fin), pend_flook.
+    destruct (flook (frt s') p) as [e|] eqn:E; [|lia].
+    apply flook_In in E. unfold pend1. rewrite (Hnone p e E). lia.
+  - clear - commit_nodup. intros force et s s' f' et' ok (Hinv & Hbal) H.
+    split; [eapply iter_inv; eauto|eapply iter_balanced; eauto].
+Qed.
+
+Lemma run_stop ee n endt et s : endt <= gt s -> runv vfixed ee n endt false et s = (Some s, true).
+Proof.
+  intros H. assert (E : (gt s <? endt) || false = false).
+  { rewrite orb_false_r. apply Z.ltb_ge. exact H. }
+  destruct n; cbn [Sched.run]; rewrite E; reflexivity.
+Qed.
+
+Lemma iter_force ee endt force et s s' f' et' ok :
+  iterv vfixed ee endt force et s = (s', f', et', ok) ->
+  f' = (if force && (gt s' =? endt) then false else force).
+Proof. intros H. destruct (iter_cases _ _ _ _ _ _ _ _ _ _ H eq_refl) as (_ & Hf & _). exact Hf. Qed.
+
+Theorem update_completes ee fuel endt : forall et s s',
+  Inv s -> idle_behind s -> fronts_le endt s -> gt s <= endt ->
+  runv vfixed ee fuel endt true et s = (Some s', true) -> complete Sg U W s' = true.
+Proof.
+  induction fuel as [|n IH]; intros et s s' Hinv Hi Hf Hle H; cbn [Sched.run] in H;
+    rewrite orb_true_r in H; [discriminate|].
+  destruct (iterv vfixed ee endt true et s) as [[[s1 f1] et1] ok1] eqn:Ei.
+  destruct (runv vfixed ee n endt f1 et1 s1) as [r ok2] eqn:Er.
+  inversion H as [[Hr Hok]]. subst r. apply andb_true_iff in Hok. destruct Hok as [-> ->].
+  pose proof (iter_force _ _ _ _ _ _ _ _ _ Ei) as Hf1. cbn [andb] in Hf1.
+  destruct (iter_fronts_le _ _ _ _ _ _ _ _ _ Hle Hf Ei) as [Hf' Hle'].
+  destruct (Z.eqb_spec (gt s1) endt) as [Heq|Hne]; subst f1.
+  - rewrite run_stop in Er by lia. inversion Er; subst s'.
+    eapply iter_final_complete; eauto.
+  - eapply IH; [| | | |exact Er]; try assumption.
+    + eapply iter_inv; eauto.
+    + eapply iter_idle_behind; eauto.
+Qed.
+
+Theorem run_forced_ok ee fuel endt : forall et s r ok,
+  (forall w p x, 1 <= fst (poll w p x)) ->
+  Inv s -> idle_tight s -> fronts_le endt s -> gt s <= endt ->
+  runv vfixed ee fuel endt true et s = (r, ok) ->
+  ok = true /\ (forall s', r = Some s' -> complete Sg U W s' = true /\ idle_tight s' /\ Inv s' /\ gt s' = endt).
+Proof.
+  induction fuel as [|n IH]; intros et s r ok Hreq Hinv Hi Hf Hle H; cbn [Sched.run] in H;
+    rewrite orb_true_r in H.
+  - inversion H; subst. split; [reflexivity|]. intros s' Hs. discriminate.
+  - destruct (iterv vfixed ee endt true et s) as [[[s1 f1] et1] ok1] eqn:Ei.
+    destruct (runv vfixed ee n endt f1 et1 s1) as [r2 ok2] eqn:Er.
+    inversion H; subst r ok. clear H.
+    pose proof (iter_force _ _ _ _ _ _ _ _ _ Ei) as Hf1. cbn [andb] in Hf1.
+    destruct (iter_fronts_le _ _ _ _ _ _ _ _ _ Hle Hf Ei) as [_ Hle'].
+    destruct (ok_forced _ _ _ _ _ _ _ _ Hreq Hinv Hi Hf Hle Ei) as (-> & Hi' & Hf' & Hinv').
+    cbn [andb].
+    destruct (Z.eqb_spec (gt s1) endt) as [Heq|Hne]; subst f1.
+    + rewrite run_stop in Er by lia. inversion Er; subst r2 ok2. split; [reflexivity|].
+      intros s' Hs. inversion Hs; subst s'. split; [|auto].
+      apply (iter_final_complete ee endt et s s1 false et1 true Hinv); try assumption.
+      intros p e Hin Hu. rewrite (Hi p e Hin Hu). lia.
+    + eapply IH; eauto.
+Qed.
+
+Lemma complete_fronts_le s : complete Sg U W s = true -> fronts_le (gt s) s.
+Proof.
+  unfold complete. rewrite forallb_forall. intros H p e Hin. specialize (H (p, e) Hin). cbn [snd] in H.
+  apply andb_true_iff in H. destruct H as [H _]. apply andb_true_iff in H. destruct H as [H _].
+  apply Z.eqb_eq in H. lia.
+Qed.
+
+Theorem update_only_ok ee fuel calls : forall s r ok,
+  (forall w p x, 1 <= fst (poll w p x)) ->
+  Forall (fun c => 0 <= fst c /\ snd c = true) calls ->
+  Inv s -> idle_tight s -> fronts_le (gt s) s ->
+  run_callsv vfixed ee fuel calls s = (r, ok) ->
+  ok = true /\ (forall s', r = Some s' -> calls <> [] -> complete Sg U W s' = true).
+Proof.
+  induction calls as [|[i f] rest IH]; intros s r ok Hreq Hc Hinv Hi Hf H; cbn [Sched.run_calls] in H.
+  - inversion H; subst. split; [reflexivity|]. intros s' _ Hn. contradiction.
+  - inversion Hc as [|c l [Hi0 Hf0] Hc']; subst. cbn [fst snd] in Hi0, Hf0. subst f.
+    destruct (run_forv vfixed ee fuel i true s) as [r1 ok1] eqn:Er.
+    unfold Sched.run_for in Er.
+    assert (Hf1 : fronts_le (gt s + i) s).
+    { intros p e Hin. pose proof (Hf p e Hin). lia. }
+    assert (Hle1 : gt s <= gt s + i) by lia.
+    destruct (run_forced_ok _ _ _ _ _ _ _ Hreq Hinv Hi Hf1 Hle1 Er) as [-> Hs1].
+    destruct r1 as [s1|].
+    + destruct (Hs1 s1 eq_refl) as (Hcomp & Hi1 & Hinv1 & Hgt1).
+      destruct (run_callsv vfixed ee fuel rest s1) as [r' ok'] eqn:Ec.
+      inversion H; subst r ok. clear H.
+      destruct (IH s1 r' ok' Hreq Hc' Hinv1 Hi1 (complete_fronts_le s1 Hcomp) Ec) as [-> Hr'].
+      split; [reflexivity|]. intros s' Hs _.
+      destruct rest as [|c rest'].
+      * cbn [Sched.run_calls] in Ec. assert (Hr1 : r' = Some s1) by congruence.
+        rewrite Hr1 in Hs. assert (Hss : s1 = s') by congruence. rewrite <- Hss. exact Hcomp.
+      * apply (Hr' s' Hs). discriminate.
+    + inversion H; subst. split; [reflexivity|]. intros s' Hs. discriminate.
+Qed.
+
 
 End Once.
+
+Print Assumptions init_inv.
+Print Assumptions iter_inv.
+Print Assumptions iter_apply_on_time.
+Print Assumptions iter_balanced.
+Print Assumptions run_once.
+Print Assumptions run_calls_once.
+Print Assumptions iter_fronts_le.
+Print Assumptions no_pending_at_return.
+Print Assumptions all_applied_at_return.
+Print Assumptions iter_idle_behind.
+Print Assumptions update_completes.
+Print Assumptions ok_forced.
+Print Assumptions run_forced_ok.
+Print Assumptions update_only_ok.
